@@ -58,6 +58,8 @@ _ss.StateSpace.smt_fork = _counted_fork
 
 # ---------------------------------------------------------------- P1
 def _bits_and(var, mask):
+    if mask & (mask + 1) == 0:            # mask == 2^k - 1: x & mask == x mod 2^k (one term instead of k)
+        return var % (mask + 1) if mask else z3.IntVal(0)
     terms = []
     k = 0
     while (1 << k) <= mask:
